@@ -6,6 +6,7 @@ from props import grammar as G
 
 COQ_CORR = "Corr.C17"
 GEN_DEPS = ["GenConst.v"]
+EXTRA_TARGETS = ["Examples/C17_inhabited"]
 SHARD = 300
 RULE = ("container: sequences of 1-8 assignments (scalar / list / tuple / empty list; through Feature[k]=v and through "
         "feature.attributes[k]=v; repeated keys) read back under both settings of always_return_list; JSON: mappings with "
@@ -14,9 +15,26 @@ RULE = ("container: sequences of 1-8 assignments (scalar / list / tuple / empty 
         "numeric and non-numeric values x numeric_sort, arguments deep-compared before/after; equality: pairs of Features "
         "differing in one column / attribute / value order / dialect / extra column, compared by ==, by printed line, by hash.  "
         "distinct by (case kind, sizes, flags)")
-ASSUMPTIONS = ["json (simplejson) is an oracle in the theorem; its round trip on str->list-of-str dicts is what CJson cases observe"]
+ASSUMPTIONS = ["simplejson is modelled as text in Model/Json.v (dumps with compact separators and ensure_ascii; strict loads on the "
+               "object-of-string-lists sub-grammar); CJson cases compare the produced text character by character and the decoded "
+               "mapping, CJsonText cases compare the decoder on damaged / hand-written texts"]
 
-UNI = ["a", "b", "Z", "é", " ", "\t", "\n", '"', "\\", "/", " ", "\U0001F600", "\x00", "\x1f", "\x7f", "%", ";", "=", ",", "́", "10", "9"]
+UNI = ["a", "b", "Z", "\xe9", " ", "\t", "\n", '"', "\\", "/", "\u2028", "\U0001F600", "\x00", "\x1f", "\x7f", "%", ";", "=", ",",
+       "\u0301", "10", "9", "\x08", "\x0c", "\r", "\ud83d", "\ude00", "\ufffd", "\U0010FFFF", "\U00010000", "\uffff", "\ud7ff", "\ue000",
+       "\udbff", "\udc00", "~", "\x80"]
+# hand-written texts for the decoder: upper-case hex, \/ escape, whitespace, repeated keys, lone / split surrogate escapes,
+# scalars instead of lists, non-string members, raw control characters, truncated escapes
+JSON_TEXTS = [
+    '{}', ' { } ', '{"k":[]}', '{"k":["a"]}', '{ "k" : [ "a" , "b" ] , "j" : [ ] }', '{"k":["\\u00E9\\u00e9\\/"]}',
+    '{"k":["a"],"j":[],"k":["z"]}', '{"k":["\\uD83D\\uDE00"]}', '{"k":["\\uD83D"]}', '{"k":["\\uD83D\\u0041"]}',
+    '{"k":["\\uDE00\\uD83D"]}', '{"k":["\\uD83D\\uD83D\\uDE00"]}', '{"k":["\\ud83d\\n"]}', '{"k":["\\ud83dx\\ude00"]}',
+    '{"k":"v"}', '{"k":"v","j":["w"]}', '{"k":true}', '{"k":[true]}', '{"k":null}', '{"k":1}', '{"k":[1]}', '{"k":[["a"]]}',
+    '{"k":{"a":["b"]}}', '["a"]', '"a"', '', '{', '{"k"}', '{"k":}', '{"k":["a",]}', '{"k":["a"],}', '{,}', '{"k":["a"]}}',
+    '{"k":["a\tb"]}', '{"k":["a\x00b"]}', '{"k":["\\u12"]}', '{"k":["\\u12G4"]}', '{"k":["\\x41"]}', '{"k":["\\"]}',
+    '{"k":["a"]', '{"k":["a]}', "{'k':['a']}", '{"k":["\\uD83D\\u12"]}', '{"k":["\\uD83D\\uZZZZ"]}', '{"k":["\\uD83D\\',
+    '{"k":["\x7f\x80\xe9\U0001F600"]}', '{"k":["a"]}\n', '\t{"k":["a"]}', '{"k":["a"]} x', '{"":[""]}', '{"k":[""],"":[]}',
+    '{"k":false,"j":["x"]}', '{"k":["tru"]}', '{"k":tru}', '{"k":falsey}', '{"k":[ ]}', '{"k":["a" "b"]}', '{"k" ["a"]}',
+]
 NUMS = ["1", "2", "10", "9", "4.2", "5", "5.0", "-3", "007", "7"]
 WORDS = ["a", "b", "x1", "é", "B", "gene", ""]
 
@@ -73,6 +91,26 @@ def gen_cases(rng, tier):
             used.add(k)
             m.append([k, [ustr(rng, rng.choice([0, 1, 2, 5])) for _ in range(rng.choice([0, 1, 1, 2, 3]))]])
         cases.append({"k": "json", "m": m})
+    for t in JSON_TEXTS:
+        cases.append({"k": "jtext", "t": t})
+    JALPHA = list('{}[]":,\\u0dD8cCeE9 tn/x') + ["\t", "\x01", "\xe9"]
+    for i in range(n):
+        # damaged copies of real stored texts
+        m = [[ustr(rng), [ustr(rng, rng.choice([0, 1, 2, 4])) for _ in range(rng.choice([0, 1, 2]))]] for _ in range(rng.choice([1, 1, 2, 3]))]
+        import json as _json
+        t = list(_json.dumps(dict((k, v) for k, v in m), separators=(",", ":")))
+        for _ in range(rng.choice([0, 1, 1, 2, 3])):
+            if not t:
+                break
+            j = rng.randrange(len(t))
+            r = rng.random()
+            if r < 0.35:
+                del t[j]
+            elif r < 0.7:
+                t.insert(j, rng.choice(JALPHA))
+            else:
+                t[j] = rng.choice(JALPHA)
+        cases.append({"k": "jtext", "t": "".join(t)})
     for i in range(n):
         vals = NUMS if rng.random() < 0.5 else NUMS + WORDS[:5]
         cases.append({"k": "merge", "numeric": rng.random() < 0.5, "a1": gen_mapping(rng, vals), "a2": gen_mapping(rng, vals)})
@@ -108,6 +146,8 @@ def valid_case(c):
         if c["k"] == "json":
             ks = [k for k, _ in c["m"]]
             return len(set(ks)) == len(ks)
+        if c["k"] == "jtext":
+            return isinstance(c["t"], str)
         if c["k"] == "merge":
             for a in (c["a1"], c["a2"]):
                 ks = [k for k, _ in a]
@@ -142,6 +182,10 @@ def shrinks(c):
             for t in range(len(k)):
                 if len(k) > 1:
                     yield dict(c, m=m[:i] + [[k[:t] + k[t + 1:], vs]] + m[i + 1:])
+    elif c["k"] == "jtext":
+        t = c["t"]
+        for i in range(len(t)):
+            yield dict(c, t=t[:i] + t[i + 1:])
     elif c["k"] == "merge":
         for key in ("a1", "a2"):
             m = c[key]
@@ -232,9 +276,17 @@ def run_impl(c):
             b = helpers._unjsonify(text, isattributes=True)
             ok = isinstance(text, str) and all(isinstance(k, str) and isinstance(v, list) and all(isinstance(x, str) for x in v)
                                                for k, v in b._d.items())
+            return {"text": text if isinstance(text, str) else "<not a str>",
+                    "back": ["ok", [[k, list(v)] for k, v in b._d.items()]] if ok else ["err", "Other"]}
+        except Exception as ex:
+            return {"text": "<raised>", "back": ["err", L.err_class(ex)]}
+    if c["k"] == "jtext":
+        try:
+            b = helpers._unjsonify(c["t"], isattributes=True)
+            ok = all(isinstance(k, str) and isinstance(v, list) and all(isinstance(x, str) for x in v) for k, v in b._d.items())
             return {"back": ["ok", [[k, list(v)] for k, v in b._d.items()]] if ok else ["err", "Other"]}
         except Exception as ex:
-            return {"back": ["err", L.err_class(ex)]}
+            return {"back": ["err", "Other"]}
     if c["k"] == "merge":
         a1, a2 = Attributes(), Attributes()
         for k, vs in c["a1"]:
@@ -276,7 +328,9 @@ def coq_case(c, o):
                       "(str * stored)")
         return "COps %s %s %s" % (ops, reads, kinds)
     if c["k"] == "json":
-        return "CJson %s %s" % (G.coq_attrs(c["m"]), L.res(o["back"], G.coq_attrs))
+        return "CJson %s %s %s" % (G.coq_attrs(c["m"]), L.s(o["text"]), L.res(o["back"], G.coq_attrs))
+    if c["k"] == "jtext":
+        return "CJsonText %s %s" % (L.s(c["t"]), L.res(o["back"], G.coq_attrs))
     if c["k"] == "merge":
         return "CMergeA %s %s %s %s %s" % (L.b(c["numeric"]), G.coq_attrs(c["a1"]), G.coq_attrs(c["a2"]), L.res(o["m"], G.coq_attrs),
                                            L.b(o["unchanged"]))
@@ -291,6 +345,12 @@ def labels(c, o):
         yield "eq=%s" % o["eq"]
     if c["k"] == "json":
         yield "json/keys=%d" % len(c["m"])
+        if any(0xD800 <= ord(ch) <= 0xDFFF for k, vs in c["m"] for x in [k] + vs for ch in x):
+            yield "json/has-surrogate-code-point"
+        if any(ord(ch) > 0xFFFF for k, vs in c["m"] for x in [k] + vs for ch in x):
+            yield "json/has-astral"
+    if c["k"] == "jtext":
+        yield "jtext/decoded=" + o["back"][0]
 
 
 def nontrivial_key(c, o):
@@ -298,6 +358,8 @@ def nontrivial_key(c, o):
         return ("ops", tuple((k, v[0], len(v[1]) if v[0] != "s" else -1) for k, v, _ in c["ops"][:4]))
     if c["k"] == "json" and c["m"]:
         return ("json", len(c["m"]), sum(len(vs) for _, vs in c["m"]))
+    if c["k"] == "jtext" and o["back"][0] == "ok" and o["back"][1]:
+        return ("jtext", c["t"][:12])
     if c["k"] == "merge" and c["a1"] and c["a2"]:
         shared = len(set(k for k, _ in c["a1"]) & set(k for k, _ in c["a2"]))
         return ("merge", c["numeric"], shared, len(c["a1"]), len(c["a2"]))
